@@ -151,8 +151,30 @@ def task(seed):
     return out
 
 
+def big_task(item):
+    """Runs as large as real inputs (hundreds of mutations in the starting clone) with minimal sampler settings."""
+    import random
+
+    seed, n_mut = item
+    r = random.Random(seed)
+    spec = wp.spec_from_seed(seed, boundary=False, chains=1, finite_clock=False, clustered=False, n_mut=n_mut)
+    spec["options"].update(num_iters=1, thin=1, num_particles=1, grid_size=11, burnin=1, subtree_update_prob=0.0, num_samples_data_point=0,
+                           num_samples_prune_regraph=r.choice([0, 1]), proposal="bootstrap", num_chains=1, outlier_prob=r.choice([0.0, 0.01]),
+                           concentration_update=r.random() < 0.5)
+    spec["via_cli"] = False
+    problems, info = evaluate(spec)
+    return {"seed": seed, "n_mut": n_mut, "problems": [(k, d, jsonable_spec(spec)) for k, d in problems], "entries": info["entries"]}
+
+
 def run(ctx):
     wp.warm_up()
+    sizes = [31, 32, 33, 63, 64, 65, 127, 128, 129, 130, 255, 256, 257, 258, 300] + ([511, 512, 513, 1000, 1025] if ctx.tier != "quick" else [])
+    bres = runner.pmap(big_task, [(ctx.sub(("big", n_)), n_) for n_ in sizes], timeout=1500)
+    for out in bres:
+        ctx.probe("run_with_%d_or_more_mutations" % (100 if out["n_mut"] >= 100 else 30))
+        for key, detail, sp in out["problems"]:
+            ctx.violation(dict(key, large_input=True), detail + " | %d mutations, minimal sampler settings" % out["n_mut"], {"spec": sp, "key": key, "seed": out["seed"]})
+    ctx.cov["large_input_runs"] = {"mutations": sizes, "all_completed": all(not o["problems"] for o in bres)}
     n = 1200 if ctx.tier == "quick" else 60000
     seeds = [ctx.sub(("run", i)) for i in range(n)]
     deadline = ctx.t0 + (95 if ctx.tier == "quick" else 3300)
